@@ -1,6 +1,7 @@
 package c12
 
 import (
+	"strings"
 	"math/rand"
 
 	"verif/harness/vk"
@@ -58,7 +59,11 @@ func (g *gen) str(n int) string {
 // value for column s: strings around the declared length, NULL, rarely an integer
 func (g *gen) sVal() Val {
 	m := g.cfg.MaxLen
-	switch g.rng.Intn(14) {
+	switch g.rng.Intn(16) {
+	case 14: // multi-byte runes: at most m characters but more than m bytes (the limit is a byte length)
+		return VStr(strings.Repeat("é", (m+2)/2))
+	case 15: // multi-byte, within the byte limit when m >= 2
+		return VStr(strings.Repeat("é", 1+g.rng.Intn(2)))
 	case 0, 1:
 		return VNull()
 	case 2:
